@@ -1,6 +1,325 @@
-(* Props/C08.v — placeholder while the proofs are being written *)
-From PV Require Import Base.Fmt Spec.C08Spec Model.C08Reloc.
-Theorem C08_placeholder : True.
-Proof. exact I. Qed.
-Print Assumptions C08_placeholder.
-Example C08_ex : True. Proof. exact I. Qed.
+(* Props/C08.v — property C08: relocation tables decode exactly; RELR expands to the addresses its
+   anchors and bitmaps denote; debug-section relocation follows the psABI; errors are not skipped.
+   Only statements, closed by [exact]; proofs live in Proofs/C08Proofs.v.
+   Model: Model/C08Reloc.v (transliteration of elf/relocation.py, Dynamic.get_relocation_tables,
+   ELFFile._read_dwarf_section) over the record layouts, recipe dicts, calc functions and
+   machine/flavour dispatch REGENERATED from the live code (Gen/ElfLayouts.v, Gen/C08Recipes.v).
+   Spec: Spec/C08Spec.v (gABI entries, RELR proposal, psABI table, reference application). *)
+From PV Require Import Base.Fmt Base.Outcome Spec.ElfGabi Spec.C08Spec Gen.ElfLayouts Gen.C08Recipes
+     Model.C08Reloc Proofs.C08Proofs.
+Open Scope Z_scope.
+Open Scope list_scope.
+
+(* ---------------- tables: every entry list, any surrounding bytes, up to entsize-1 slack bytes *)
+Theorem C08_rel_roundtrip : forall le is64 es pre tail slack,
+  forallb (rent_wf is64 false false) es = true ->
+  0 <= slack < rel_entsize is64 false false ->
+  iter_relocations (gen_Elf_Rel le is64) (pre ++ encode_table le is64 false false es ++ tail)
+                   (zlen pre) (zlen (encode_table le is64 false false es) + slack)
+  = Ok (map (rent_view is64 false false) es).
+Proof. exact rel_roundtrip. Qed.
+Print Assumptions C08_rel_roundtrip.
+
+Theorem C08_rela_roundtrip : forall le is64 es pre tail slack,
+  forallb (rent_wf is64 false true) es = true ->
+  0 <= slack < rel_entsize is64 false true ->
+  iter_relocations (gen_Elf_Rela le is64) (pre ++ encode_table le is64 false true es ++ tail)
+                   (zlen pre) (zlen (encode_table le is64 false true es) + slack)
+  = Ok (map (rent_view is64 false true) es).
+Proof. exact rela_roundtrip. Qed.
+Print Assumptions C08_rela_roundtrip.
+
+(* MIPS ELF64: r_sym/r_ssym/r_type3/r_type2/r_type in file order, synthesized r_info *)
+Theorem C08_mips64_split : forall le (rela : bool) es pre tail slack,
+  forallb (rent_wf true true rela) es = true ->
+  0 <= slack < rel_entsize true true rela ->
+  iter_relocations (if rela then gen_Elf_Rela_mips64 le else gen_Elf_Rel_mips64 le)
+                   (pre ++ encode_table le true true rela es ++ tail)
+                   (zlen pre) (zlen (encode_table le true true rela es) + slack)
+  = Ok (map (rent_view true true rela) es).
+Proof. exact mips64_split. Qed.
+Print Assumptions C08_mips64_split.
+
+(* the struct the code selects for (class, machine, flavour) is one of those three *)
+Theorem C08_rel_struct_cases : forall le is64 mips rela,
+  rel_struct le is64 mips rela =
+  if is64 && mips then (if rela then gen_Elf_Rela_mips64 le else gen_Elf_Rel_mips64 le)
+  else (if rela then gen_Elf_Rela le is64 else gen_Elf_Rel le is64).
+Proof. exact rel_struct_cases. Qed.
+Print Assumptions C08_rel_struct_cases.
+
+Theorem C08_entry_roundtrip : forall le is64 mips rela e tail,
+  rent_wf is64 (is64 && mips) rela e = true ->
+  decode_layout (rel_struct le is64 mips rela) (encode_rent le is64 (is64 && mips) rela e ++ tail)
+  = Some (rent_view is64 (is64 && mips) rela e, tail).
+Proof. exact rent_roundtrip. Qed.
+Print Assumptions C08_entry_roundtrip.
+
+Theorem C08_num_relocations_exact : forall le is64 mips rela es slack,
+  forallb (rent_wf is64 (is64 && mips) rela) es = true ->
+  0 <= slack < rel_entsize is64 (is64 && mips) rela ->
+  num_relocations (rel_struct le is64 mips rela)
+                  (zlen (encode_table le is64 (is64 && mips) rela es) + slack) = zlen es.
+Proof. exact num_relocations_exact. Qed.
+Print Assumptions C08_num_relocations_exact.
+
+Theorem C08_get_relocation_exact : forall le is64 mips rela es pre tail n d,
+  forallb (rent_wf is64 (is64 && mips) rela) es = true ->
+  (n < length es)%nat ->
+  get_relocation (rel_struct le is64 mips rela)
+                 (pre ++ encode_table le is64 (is64 && mips) rela es ++ tail) (zlen pre) (Z.of_nat n)
+  = Ok (rent_view is64 (is64 && mips) rela (nth n es d)).
+Proof. exact get_relocation_exact. Qed.
+Print Assumptions C08_get_relocation_exact.
+
+Theorem C08_entsize_checked : forall le is64 mips rela entsize,
+  reloc_section_check (rel_struct le is64 mips rela) entsize
+  = if entsize =? rel_entsize is64 (is64 && mips) rela then Ok tt else Err EElf.
+Proof. exact reloc_section_check_exact. Qed.
+Print Assumptions C08_entsize_checked.
+
+(* ---------------- RELR: model = gABI reading for EVERY word list *)
+Theorem C08_relr_equal : forall le is64 ws pre tail,
+  relr_words_wf is64 ws = true ->
+  relr_iter_relocations le is64 (pre ++ encode_relr le is64 ws ++ tail)
+                        (zlen pre) (zlen (encode_relr le is64 ws)) (wordsize is64)
+  = relr_spec is64 ws.
+Proof. exact relr_equal. Qed.
+Print Assumptions C08_relr_equal.
+
+Theorem C08_relr_entsize_checked : forall le is64 img off size entsize,
+  entsize <> wordsize is64 -> relr_iter_relocations le is64 img off size entsize = Err EElf.
+Proof. exact relr_entsize_checked. Qed.
+Print Assumptions C08_relr_entsize_checked.
+
+(* ---------------- recipes regenerated from the code = the psABI table *)
+(* for every row: the machine+flavour reaches a recipe family, the family has the type, with the
+   psABI width, never needing a missing addend, and its (symbolically translated) calc function
+   equals the psABI formula modulo 2^(8n) for ALL integers V S P A (A := V for REL) *)
+Theorem C08_calc_matches_psabi : forall em rela typ name n f,
+  In (em, rela, typ, name, n, f) psabi_table -> row_ok em rela typ n f.
+Proof. exact calc_matches_psabi. Qed.
+Print Assumptions C08_calc_matches_psabi.
+
+(* conversely the code supports nothing else on the listed machines (R_ARM_CALL aside) *)
+Theorem C08_recipes_within_psabi : forall em rela fam typ r,
+  In em listed_machines -> family_for em rela = Some fam -> recipe_of fam typ = Some r ->
+  (em = EM_ARM /\ typ = 28) \/ psabi_lookup em rela typ <> None.
+Proof. exact recipes_within_psabi. Qed.
+Print Assumptions C08_recipes_within_psabi.
+
+Theorem C08_dispatch_matches_psabi : forall em rela,
+  In em listed_machines ->
+  (match family_for em rela with Some _ => true | None => false end) = flavour_ok em rela.
+Proof. exact dispatch_matches_psabi. Qed.
+Print Assumptions C08_dispatch_matches_psabi.
+
+(* ---------------- application *)
+(* one relocation: the transliterated _do_apply_relocation = the reference step *)
+Theorem C08_apply_one_refines : forall le is64 em rela symvals symval,
+  In em listed_machines ->
+  (forall n, 0 <= n < zlen symvals -> symval n = Ok (nth (Z.to_nat n) symvals 0)) ->
+  nth 0 symvals 0 = 0 ->
+  forall s e,
+  all_bytes s = true -> zlen s < 2 ^ 63 ->
+  rent_wf is64 (is64 && is_mips em) rela e = true ->
+  apply_entry_wf is64 em rela (zlen s) e = true ->
+  do_apply_relocation le is64 em (zlen symvals) symval s (rent_view is64 (is64 && is_mips em) rela e)
+  = spec_apply_one le is64 em rela symvals s e.
+Proof. exact apply_one_refines. Qed.
+Print Assumptions C08_apply_one_refines.
+
+(* FRAME: same length, bytes outside [r_offset, r_offset+n) unchanged, the field decodes in the
+   file's byte order to the psABI value wrapped to the field width *)
+Theorem C08_apply_frame : forall le is64 em rela symvals s e s',
+  spec_apply_one le is64 em rela symvals s e = Ok s' ->
+  exists n f, psabi_lookup em rela (r_typ e) = Some (n, f) /\
+    length s' = length s /\
+    (forall i d, (f = FNone \/ Z.of_nat i < r_off e \/ r_off e + Z.of_nat n <= Z.of_nat i) ->
+                 nth i s' d = nth i s d) /\
+    (f <> FNone ->
+     int_decode le (slice s' (Z.to_nat (r_off e)) n)
+     = wrap n (eval_formula f (int_decode le (slice s (Z.to_nat (r_off e)) n))
+                            (sym_S symvals (r_sym e)) (r_off e)
+                            (if rela then r_add e else int_decode le (slice s (Z.to_nat (r_off e)) n)))).
+Proof. exact apply_one_frame. Qed.
+Print Assumptions C08_apply_frame.
+
+(* the whole list: nothing skipped, nothing else touched *)
+Theorem C08_apply_all_frame : forall le is64 em rela symvals es s s',
+  spec_apply_all le is64 em rela symvals s es = Ok s' ->
+  length s' = length s /\
+  (forall e, In e es -> r_sym e < zlen symvals /\ flavour_ok em rela = true /\
+                        psabi_lookup em rela (r_typ e) <> None) /\
+  (forall i d, forallb (fun e => negb (touches em rela e (Z.of_nat i))) es = true -> nth i s' d = nth i s d).
+Proof. exact apply_all_frame. Qed.
+Print Assumptions C08_apply_all_frame.
+
+(* sequential composition: entry e's field holds e's value computed on the state left by the
+   entries before it, provided no later entry overwrites it *)
+Theorem C08_apply_all_field : forall le is64 em rela symvals es1 e es2 s s',
+  spec_apply_all le is64 em rela symvals s (es1 ++ e :: es2) = Ok s' ->
+  exists s1 n f,
+    spec_apply_all le is64 em rela symvals s es1 = Ok s1 /\
+    psabi_lookup em rela (r_typ e) = Some (n, f) /\
+    (f <> FNone ->
+     (forall i, r_off e <= Z.of_nat i < r_off e + Z.of_nat n ->
+                forallb (fun e' => negb (touches em rela e' (Z.of_nat i))) es2 = true) ->
+     int_decode le (slice s' (Z.to_nat (r_off e)) n)
+     = wrap n (eval_formula f (int_decode le (slice s1 (Z.to_nat (r_off e)) n))
+                            (sym_S symvals (r_sym e)) (r_off e)
+                            (if rela then r_add e else int_decode le (slice s1 (Z.to_nat (r_off e)) n)))).
+Proof. exact apply_all_field. Qed.
+Print Assumptions C08_apply_all_field.
+
+(* the path of ELFFile._read_dwarf_section(relocate=True) on an image holding the section, its
+   .rel/.rela table and the linked symbol table = the reference application *)
+Theorem C08_read_dwarf_section_exact :
+  forall le is64 em img secs section rs symtab (rela : bool) es syms pre tail pre2 tail2,
+  In em listed_machines ->
+  find_relocations_for_section secs (s_name section) = Some rs ->
+  s_type rs = (if rela then SHT_RELA else SHT_REL) ->
+  s_entsize rs = rel_entsize is64 (is64 && is_mips em) rela ->
+  nth_error secs (Z.to_nat (s_link rs)) = Some symtab ->
+  s_entsize symtab = sym_entsize is64 -> s_size symtab = zlen (encode_symtab le is64 syms) ->
+  img = pre ++ encode_table le is64 (is64 && is_mips em) rela es ++ tail ->
+  s_off rs = zlen pre -> s_size rs = zlen (encode_table le is64 (is64 && is_mips em) rela es) ->
+  img = pre2 ++ encode_symtab le is64 syms ++ tail2 -> s_off symtab = zlen pre2 ->
+  forallb (sym_wf is64) syms = true -> snd (nth 0 syms (0, 0)) = 0 ->
+  forallb (rent_wf is64 (is64 && is_mips em) rela) es = true ->
+  let data := firstn (Z.to_nat (s_size section)) (zskipn (s_off section) img) in
+  all_bytes data = true -> zlen data < 2 ^ 63 ->
+  forallb (apply_entry_wf is64 em rela (zlen data)) es = true ->
+  read_dwarf_section le is64 em img secs section true
+  = spec_apply_all le is64 em rela (map snd syms) data es.
+Proof. exact read_dwarf_section_exact. Qed.
+Print Assumptions C08_read_dwarf_section_exact.
+
+Theorem C08_find_relocations_sound : forall secs name rs,
+  find_relocations_for_section secs name = Some rs ->
+  In rs secs /\ (s_type rs = SHT_REL \/ s_type rs = SHT_RELA) /\
+  (bytes_eqb (s_name rs) (dot_rel ++ name) = true \/ bytes_eqb (s_name rs) (dot_rela ++ name) = true).
+Proof. exact find_relocations_sound. Qed.
+Print Assumptions C08_find_relocations_sound.
+
+Theorem C08_symtab_value_exact : forall le is64 tail syms pre n d,
+  forallb (sym_wf is64) syms = true -> (n < length syms)%nat ->
+  symtab_value le is64 (pre ++ encode_symtab le is64 syms ++ tail) (zlen pre) (sym_entsize is64) (Z.of_nat n)
+  = Ok (snd (nth n syms d)).
+Proof. exact symtab_value_exact. Qed.
+Print Assumptions C08_symtab_value_exact.
+
+(* ---------------- errors: exactly the relocation error, never a silent skip *)
+Theorem C08_errors_exact : forall le is64 em rela symvals s e,
+  let reloc_error := negb (r_sym e <? zlen symvals) || negb (flavour_ok em rela) ||
+                     ((em =? EM_MIPS) && rela && is64 && (r_typ e =? 18) && mips64_compound e) ||
+                     match psabi_lookup em rela (r_typ e) with None => true | Some _ => false end in
+  (reloc_error = true -> spec_apply_one le is64 em rela symvals s e = Err EReloc) /\
+  (reloc_error = false ->
+     (exists s', spec_apply_one le is64 em rela symvals s e = Ok s') \/
+     spec_apply_one le is64 em rela symvals s e = Err EParse).
+Proof. exact apply_one_errors. Qed.
+Print Assumptions C08_errors_exact.
+
+(* on ANY machine and input the transliterated code applies a relocation only through a recipe *)
+Theorem C08_model_never_skips : forall le is64 em nsyms symval s reloc s',
+  do_apply_relocation le is64 em nsyms symval s reloc = Ok s' ->
+  exists sym typ fam r,
+    getf reloc "r_info_sym" = Ok sym /\ sym < nsyms /\ getf reloc "r_info_type" = Ok typ /\
+    family_for em (has_field reloc "r_addend") = Some fam /\ recipe_of fam typ = Some r.
+Proof. exact model_never_skips. Qed.
+Print Assumptions C08_model_never_skips.
+
+Theorem C08_model_reloc_errors : forall le is64 em nsyms symval s reloc sym,
+  getf reloc "r_info_sym" = Ok sym ->
+  (nsyms <= sym -> do_apply_relocation le is64 em nsyms symval s reloc = Err EReloc) /\
+  (forall sv typ, sym < nsyms -> symval sym = Ok sv -> getf reloc "r_info_type" = Ok typ ->
+     family_for em (has_field reloc "r_addend") = None ->
+     do_apply_relocation le is64 em nsyms symval s reloc = Err EReloc).
+Proof. exact model_reloc_errors. Qed.
+Print Assumptions C08_model_reloc_errors.
+
+(* ---------------- relocation disabled / absent: the bytes of the section, untouched *)
+Theorem C08_no_relocation_when_disabled : forall le is64 em img secs section,
+  read_dwarf_section le is64 em img secs section false
+  = Ok (firstn (Z.to_nat (s_size section)) (zskipn (s_off section) img)).
+Proof. exact no_relocation_when_disabled. Qed.
+Print Assumptions C08_no_relocation_when_disabled.
+
+Theorem C08_no_relocation_section : forall le is64 em img secs section,
+  find_relocations_for_section secs (s_name section) = None ->
+  read_dwarf_section le is64 em img secs section true
+  = Ok (firstn (Z.to_nat (s_size section)) (zskipn (s_off section) img)).
+Proof. exact no_relocation_section. Qed.
+Print Assumptions C08_no_relocation_section.
+
+(* ---------------- dynamic tables *)
+Theorem C08_dynamic_tables_exact : forall le is64 em tags segs relsz relasz relrsz pltsz pltrel,
+  (first_tag tags DT_REL <> None ->
+     first_tag tags DT_RELSZ = Some relsz /\
+     first_tag tags DT_RELENT = Some (rel_entsize is64 (is64 && is_mips em) false)) ->
+  (first_tag tags DT_RELA <> None ->
+     first_tag tags DT_RELASZ = Some relasz /\
+     first_tag tags DT_RELAENT = Some (rel_entsize is64 (is64 && is_mips em) true)) ->
+  (first_tag tags DT_RELR <> None ->
+     first_tag tags DT_RELRSZ = Some relrsz /\ first_tag tags DT_RELRENT = Some (wordsize is64)) ->
+  (first_tag tags DT_JMPREL <> None ->
+     first_tag tags DT_PLTRELSZ = Some pltsz /\ first_tag tags DT_PLTREL = Some pltrel) ->
+  get_relocation_tables le is64 em tags segs
+  = Ok (opt_tab (first_tag tags DT_REL) (fun p => TRel "REL" (table_offset segs p) relsz false) ++
+        opt_tab (first_tag tags DT_RELA) (fun p => TRel "RELA" (table_offset segs p) relasz true) ++
+        opt_tab (first_tag tags DT_RELR) (fun p => TRelr (table_offset segs p) relrsz (wordsize is64)) ++
+        opt_tab (first_tag tags DT_JMPREL) (fun p => TRel "JMPREL" (table_offset segs p) pltsz (pltrel =? 7))).
+Proof. exact dynamic_tables_exact. Qed.
+Print Assumptions C08_dynamic_tables_exact.
+
+Theorem C08_first_tag_exact : forall l1 t v l2,
+  forallb (fun p => negb (fst p =? t) && negb (fst p =? 0)) l1 = true ->
+  first_tag (l1 ++ (t, v) :: l2) t = Some v.
+Proof. exact first_tag_exact. Qed.
+Print Assumptions C08_first_tag_exact.
+
+Theorem C08_first_tag_after_null : forall l1 l2 t,
+  t <> 0 -> forallb (fun p => negb (fst p =? t)) l1 = true ->
+  first_tag (l1 ++ (0, 0) :: l2) t = None.
+Proof. exact first_tag_after_null. Qed.
+Print Assumptions C08_first_tag_after_null.
+
+Theorem C08_address_offset_exact : forall l1 off vaddr filesz l2 addr,
+  forallb (fun sg => match sg with (o, v, fz) => negb ((v <=? addr) && (addr + 1 <=? v + fz)) end) l1 = true ->
+  vaddr <= addr < vaddr + filesz ->
+  address_offset (l1 ++ (off, vaddr, filesz) :: l2) addr = Some (addr - vaddr + off).
+Proof. exact address_offset_exact. Qed.
+Print Assumptions C08_address_offset_exact.
+
+(* ---------------- non-vacuity: the hypotheses are met by concrete, non-trivial inputs *)
+(* a RELA entry with a negative addend and a full-width symbol index; a MIPS64 entry with all sub-fields *)
+Example C08_ex_entries :
+  rent_wf true false true (mkRent 0xfffffffffffffff0 0xffffffff 11 (-2^63) 0 0 0) = true /\
+  rent_wf false false false (mkRent 0x10 0xffffff 255 0 0 0 0) = true /\
+  rent_wf true true true (mkRent 8 5 18 (-1) 7 2 3) = true /\
+  rent_view true true false (mkRent 8 5 18 0 7 2 3) =
+    [("r_offset", VZ 8); ("r_sym", VZ 5); ("r_ssym", VZ 7); ("r_type3", VZ 2); ("r_type2", VZ 3);
+     ("r_type", VZ 18); ("r_info_sym", VZ 5); ("r_info_ssym", VZ 7); ("r_info_type", VZ 18);
+     ("r_info_type2", VZ 3); ("r_info_type3", VZ 2); ("r_info", VZ 0x0000000507020312)]%string.
+Proof. repeat split; vm_compute; reflexivity. Qed.
+
+(* anchor + bitmap with bit 1 and bit 63; two consecutive bitmaps; a bitmap without anchor is malformed *)
+Example C08_ex_relr :
+  relr_spec true [0x1000; 0x8000000000000003] = Ok [0x1000; 0x1008; 0x1008 + 62 * 8] /\
+  relr_spec false [0x100; 3; 5] = Ok [0x100; 0x104; 0x104 + 31 * 4 + 4] /\
+  relr_spec false [3] = Err EElf /\
+  relr_words_wf true [0x1000; 0x8000000000000003] = true.
+Proof. repeat split; vm_compute; reflexivity. Qed.
+
+(* x86-64 LE: R_X86_64_PC32 with a negative result wraps to 32 bits; R_X86_64_64 with S > 2^63;
+   the model run on the encoded image agrees *)
+Example C08_ex_apply :
+  let symvals := [0; 0x10; 0xfffffffffffffff0] in
+  let es := [mkRent 4 1 2 (-0x20) 0 0 0; mkRent 8 2 1 0x20 0 0 0] in
+  let s := [1; 2; 3; 4; 5; 6; 7; 8; 9; 10; 11; 12; 13; 14; 15; 16] in
+  apply_wf true EM_X86_64 true symvals s es = true /\
+  spec_apply_all true true EM_X86_64 true symvals s es
+  = Ok [1; 2; 3; 4; 0xec; 0xff; 0xff; 0xff; 0x10; 0; 0; 0; 0; 0; 0; 0] /\
+  spec_apply_all true true EM_386 true symvals s es = Err EReloc.
+Proof. repeat split; vm_compute; reflexivity. Qed.
